@@ -12,7 +12,7 @@ Dot == (a0 * b0 + a1 * b1 + a2 * b2) % P
 Chain2 == Val(Spmv2(a0, a1, a2, b0, b1, b2)) = Dot /\ Val(ColSum(a0, a1, a2, b0)) = (a0 + a1 + a2 + b0) % P
 Chain512 == Val(Spmv512(a0, a1, a2, b0, b1, b2)) = Dot /\ Val(ColSum512(a0, a1, a2, b0)) = (a0 + a1 + a2 + b0) % P
 (* the high parts of the three 72-bit products are added as integers and must stay below Phi: at W = 32 this is 3*(2^8-1) < 2^32; at reduced width the coefficients are bounded accordingly *)
-Chain8 == (b0 + b1 + b2 <= Phi) => (Val(Spmv8(a0, a1, a2, b0, b1, b2)) = Dot /\ Val(Spmv8_512(a0, a1, a2, b0, b1, b2)) = Dot)
+Chain8 == (b0 < Phi /\ b1 < Phi /\ b2 < Phi /\ b0 + b1 + b2 <= Phi) => (Val(Spmv8(a0, a1, a2, b0, b1, b2)) = Dot /\ Val(Spmv8_512(a0, a1, a2, b0, b1, b2)) = Dot)
 ASSUME LayoutOk4
 ASSUME LayoutOk8
 ====
